@@ -124,6 +124,9 @@ func ParseTokenRevocationRequest(r *http.Request, revoker Revoker) (token, token
 		if err = AuthorizeClientIDSecret(r.Context(), clientID, clientSecret, revoker.Storage()); err != nil {
 			return "", "", "", err
 		}
+		if err = checkAuthMethodPost(r.Context(), clientID, revoker); err != nil {
+			return "", "", "", err
+		}
 		return req.Token, req.TokenTypeHint, clientID, nil
 	}
 	if req.ClientID == "" {
